@@ -510,6 +510,177 @@ def match_snippet(sc) -> str:
             "[0,var,i] element pulled from a generator domain, [2,obj,field] field read, [4,obj] bool(obj)")
 
 
+# ------------------------------------------------------------------ construction with user data that has behaviour (implementation only)
+from krrood.entity_query_language.predicate import Predicate, symbolic_function  # noqa: E402
+
+
+@symbolic_function
+def c10_allowed(allowed, part):
+    return part in list(allowed)
+
+
+@dataclass(eq=False)
+class C10Among(Predicate):
+    allowed: Any
+    part: Any
+
+    def __call__(self) -> bool:
+        return self.part in list(self.allowed)
+
+
+class LazyColl:
+    """a lazily loading RE-ITERABLE collection (has __iter__, no __next__): [5,c] __iter__ called, [0,20+c,i] element i loaded,
+    [1,20+c] loading finished, [7,c] __contains__"""
+
+    def __init__(self, cid, items):
+        self.cid, self.items = cid, list(items)
+
+    def __iter__(self):
+        LOG.append([5, self.cid])
+        return logged_domain(20 + self.cid, self.items)
+
+    def __contains__(self, item):
+        LOG.append([7, self.cid])
+        return item in self.items
+
+
+class IterDomain:
+    """a domain whose __iter__ is user code (opens a cursor): [5,c] when it is called"""
+
+    def __init__(self, cid, items):
+        self.cid, self.items = cid, list(items)
+
+    def __iter__(self):
+        LOG.append([5, self.cid])
+        return iter(self.items)
+
+
+class LoudKey:
+    def __init__(self, k):
+        self.k = k
+
+    def __str__(self):
+        LOG.append([6, self.k])
+        return f"key{self.k}"
+
+    __repr__ = __str__
+
+    def __hash__(self):
+        return hash(self.k)
+
+    def __eq__(self, other):
+        return isinstance(other, LoudKey) and other.k == self.k
+
+
+class LoudBool(eqlgen.P):
+    def __bool__(self):
+        LOG.append([4, self.oid])
+        return True
+
+
+CTOR_KINDS = ["sf_iter", "sf_iter", "pred_iter", "lit_lazy", "let_iterable", "index_key", "single_obj"]
+# finding class of a scenario kind whose construction is NOT silent on the current tree, and the exact construction log recorded
+CTOR_FINDING = {"lit_lazy": "K_lazyliteral", "let_iterable": "K_letiter", "index_key": "K_indexstr", "single_obj": "K_singlebool"}
+
+
+def gen_ctor_scenario(rng) -> dict:
+    kind = rng.choice(CTOR_KINDS)
+    sc = {"kind": kind, "items": [rng.randint(0, 3) for _ in range(rng.randint(1, 4))], "dom": [rng.randint(0, 3) for _ in range(rng.randint(1, 3))]}
+    if kind in ("sf_iter", "pred_iter"):
+        sc["coll"] = rng.choice(["generator", "generator", "list", "tuple"])
+        sc["style"] = rng.choice(["positional", "kw_coll_first", "kw_var_first", "mixed"])
+    elif kind == "lit_lazy":
+        sc["op"] = rng.choice(["in_", "contains", "flatten", "eq", "not_"])
+    return sc
+
+
+def ctor_expected(sc) -> list:
+    """the construction log recorded for the open findings (the exact eager behaviour); [] for kinds that must be silent"""
+    k = sc["kind"]
+    if k == "lit_lazy":
+        n = len(sc["items"])
+        return [[5, 1]] + [[0, 21, i] for i in range(n)] + [[1, 21]]
+    if k == "let_iterable":
+        return [[5, 2]]
+    if k == "index_key":
+        return [[6, 7]]
+    if k == "single_obj":
+        return [[4, 9]]
+    return []
+
+
+def run_ctor(sc) -> Dict[str, Any]:
+    from krrood.entity_query_language.entity import let, entity, in_, contains, flatten, not_
+    from krrood.entity_query_language.quantify_entity import an
+    del LOG[:]
+    try:
+        k = sc["kind"]
+        x = let(int, logged_domain(0, sc["dom"]), name="x")
+        if k in ("sf_iter", "pred_iter"):
+            coll = {"generator": lambda: logged_domain(9, sc["items"]), "list": lambda: list(sc["items"]),
+                    "tuple": lambda: tuple(sc["items"])}[sc["coll"]]()
+            f = c10_allowed if k == "sf_iter" else C10Among
+            st = sc["style"]
+            c = (f(coll, x) if st == "positional" else f(allowed=coll, part=x) if st == "kw_coll_first"
+                 else f(part=x, allowed=coll) if st == "kw_var_first" else f(coll, part=x))
+            q = an(entity(x, c))
+        elif k == "lit_lazy":
+            coll = LazyColl(1, sc["items"])
+            op = sc["op"]
+            if op == "flatten":
+                item = flatten(coll)
+                q = an(entity(item, item >= 0))
+            else:
+                c = in_(x, coll) if op == "in_" else contains(coll, x) if op == "contains" else (x == coll) if op == "eq" else not_(in_(x, coll))
+                q = an(entity(x, c))
+        elif k == "let_iterable":
+            y = let(int, IterDomain(2, sc["items"]), name="y")
+            q = an(entity(y, y >= 0))
+        elif k == "index_key":
+            objs = [eqlgen.P(1, 0, 0, [])]
+            objs[0].items = {LoudKey(7): 1}
+            del LOG[:]
+            p = let(eqlgen.P, logged_domain(1, objs), name="p")
+            q = an(entity(p, p.items[LoudKey(7)] >= 0))
+        else:
+            o = LoudBool(9, 0, 0, [])
+            p = let(eqlgen.P, o, name="p")
+            q = an(entity(p, p.a >= 0))
+        it = q.evaluate()
+        build = list(LOG)
+        del LOG[:]
+        try:
+            rows = len(list(it))
+            return {"build": build, "rows": rows}
+        except Exception as e:  # noqa
+            return {"build": build, "eval_exc": type(e).__name__}
+    except Exception as e:  # noqa
+        return {"exc": type(e).__name__, "build": list(LOG)}
+
+
+def _ctor_chunk(scs):
+    return [run_ctor(sc) for sc in scs]
+
+
+def run_ctor_many(scs: List[dict], chunk: int = 50) -> List[Any]:
+    parts = [scs[i:i + chunk] for i in range(0, len(scs), chunk)]
+    out: List[Any] = []
+    if not parts:
+        return out
+    with ProcessPoolExecutor(max_workers=min(eqlcheck.N_WORKERS, len(parts))) as ex:
+        for r in ex.map(_ctor_chunk, parts):
+            out += r
+    return out
+
+
+def ctor_snippet(sc) -> str:
+    return ("import json; from harness import c10\n"
+            f"sc = json.loads({json.dumps(json.dumps(sc))})\n"
+            "print(c10.run_ctor(sc))   # 'build' = events while the query was constructed: [0,g,i] element i pulled / loaded from g "
+            "(9 = the iterator argument, 21 = the lazy collection), [1,g] finished, [4,obj] bool(obj), [5,c] __iter__ of a user collection / domain, "
+            "[6,k] str(key), [7,c] __contains__")
+
+
 # ------------------------------------------------------------------ flatten over one-shot iterators (implementation only)
 class _LoggedAs:
     """as _Logged with an explicit attribute id"""
@@ -1148,6 +1319,43 @@ def run(tier: str, seed: int, replay=None) -> int:
                                       "[2,obj,field] a field of a user object was read, [4,obj] bool(obj) was called. Nothing was evaluated yet."})
     if len(mbad) > 2:
         rep.note(f"{len(mbad)} match-API constructions ran user code (2 smallest reported)")
+
+    # ---- construction with user data that has behaviour: iterator / collection arguments of predicates and symbolic functions, lazy
+    #      collections as literal operands, a domain with its own __iter__, an index key with __str__, a single object as domain
+    if replay is None:
+        rk = core.Rng(seed * 1000003 + 41)
+        ctor_scs = [gen_ctor_scenario(rk.fork(i)) for i in range(200 if tier == "quick" else 2500)]
+    elif family == "ctor":
+        ctor_scs = [replay["scenario"]]
+    else:
+        ctor_scs = []
+    cres = run_ctor_many(ctor_scs)
+    cdist: Dict[str, Any] = {"scenarios": len(ctor_scs), "silent": 0, "construction_exception": 0}
+    cbad = []
+    for sc, r in zip(ctor_scs, cres):
+        cdist[sc["kind"]] = cdist.get(sc["kind"], 0) + 1
+        rep.count(json.dumps(["ctor", sc], sort_keys=True), True)
+        if "exc" in r:
+            cdist["construction_exception"] += 1
+        if not r["build"]:
+            cdist["silent"] += 1
+            continue
+        cls = CTOR_FINDING.get(sc["kind"])
+        if cls in open_classes and r["build"] == ctor_expected(sc):
+            kf_counts[cls] = kf_counts.get(cls, 0) + 1
+            continue
+        cbad.append((sc, r))
+    for sc, r in sorted(cbad, key=lambda t: len(json.dumps(t[0])))[:2]:
+        rep.violation({"kind": "counterexample", "family": "ctor", "scenario": sc, "impl": {"build": r["build"]}, "spec": {"build": []},
+                       "python": ctor_snippet(sc),
+                       "explanation": "building a query ran user code / advanced user data. kinds: sf_iter / pred_iter = symbolic function / Predicate with a "
+                                      "collection argument (one-shot generator, list, tuple) and a variable argument in several argument styles; lit_lazy = a lazily "
+                                      "loading re-iterable collection as literal operand of in_/contains/flatten/==/not_; let_iterable = let(T, <object with its own "
+                                      "__iter__>); index_key = variable[key] with a user key; single_obj = let(T, <one object>). events: [0,g,i] element i pulled / "
+                                      "loaded, [1,g] finished, [4,obj] bool(obj), [5,c] __iter__ called, [6,k] str(key), [7,c] __contains__"})
+    if len(cbad) > 2:
+        rep.note(f"{len(cbad)} constructions ran user code (2 smallest reported)")
+    rep.extra["construction_user_data"] = cdist
 
     # ---- flatten over one-shot iterators (directly, and behind an attribute): Spec predicates on the implementation's logs
     if replay is None:
